@@ -71,6 +71,11 @@ func VP_C15_V2VaultSweepNeverPanics() {
 		end = start + batch
 	}
 	zzvp.Assert(uint64(visited) == end-start, "every-vault-of-the-window-is-visited-even-after-a-failing-one")
+	for i := 0; i < visited; i++ {
+		// all-or-nothing per item: the step must run on the cache context that ApplyFuncIfNoError branched for it, not on
+		// the block's own context (whose writes would stay after a failure)
+		zzvp.Assert(!zzvp.SpyArgIsCtx(vpLiqOne, i, 1, ctx), "each-vault-step-runs-on-its-own-cache-context")
+	}
 	h, found := k.GetLiquidationOffsetHolder(ctx, types.VaultLiquidationsOffsetPrefix, 0)
 	zzvp.Assert(zzvp.And(found, h.CurrentOffset == end), "next-offset-is-the-end-of-the-window")
 }
@@ -127,6 +132,9 @@ func vpBorrowSweep(c15 bool) (completed bool) {
 		zzvp.Assert(!panicked, "borrow-sweep-never-panics")
 		zzvp.Assert(zzvp.Or(panicked, err == nil), "a-failing-borrow-does-not-fail-the-sweep")
 		zzvp.Assert(visited == end-start, "every-borrow-of-the-window-is-visited-even-after-a-failing-one")
+		for i := 0; i < int(visited); i++ {
+			zzvp.Assert(!zzvp.SpyArgIsCtx(vpLiqOneBorrow, i, 1, ctx), "each-borrow-step-runs-on-its-own-cache-context")
+		}
 		zzvp.Assert(zzvp.And(found, h.CurrentOffset == end), "the-sweep-moves-on-even-after-a-failing-borrow")
 		return false
 	}
